@@ -67,6 +67,7 @@ static inline int rxv_string_compare(const rxv_string* s, size_t pos, size_t len
 #define RXV_SWAP(a, b) do { __typeof__(a) rxv_tmp_ = (a); (a) = (b); (b) = rxv_tmp_; } while (0)
 #define RXV_MAX(a, b) ((a) > (b) ? (a) : (b))
 #define RXV_MIN(a, b) ((a) < (b) ? (a) : (b))
+extern int rxv_exc;   /* exception-flow model (recipes with "exceptions"): set by stubs that stand for a throwing call */
 #ifndef RXV_CAUGHT
 #define RXV_CAUGHT 0   /* with the default RXV_THROW (path ends) a handler is never entered */
 #endif
@@ -1098,7 +1099,32 @@ class Translator:
             return "rxv_new_%s(%s)" % (name, mo.group(2))
         b = re.sub(r"\bnew\s+(\w+)\s*\(([^;()]*)\)", new_expr, b)
         b = re.sub(r"\bnew\s+(\w+)\s*(?=;)", lambda mo: (self.fire("new -> rxv_new_<Class>"), "rxv_new_%s()" % mo.group(1))[1], b)
-        b = re.sub(r"\bdelete\s+(\w+)\s*;", lambda mo: (self.fire("delete -> rxv_delete"), "rxv_delete(%s);" % mo.group(1))[1], b)
+        b = re.sub(r"\bdelete\s+(\w+(?:\s*->\s*\w+|\.\w+)*)\s*;", lambda mo: (self.fire("delete -> rxv_delete"), "rxv_delete(%s);" % mo.group(1))[1], b)
+        exc = self.spec.get("exceptions")
+        if exc and re.search(r"\btry\s*\{", b):
+            # exception flow model (recipe option): calls listed in may_throw signal an exception by setting rxv_exc; control
+            # leaves the try block right after the statement containing the call (the statement itself completes with the
+            # stub's return value: exact only where the assigned object already holds that value - stated by the suites
+            # that use it) and enters the handler, which clears the flag.  Nested try blocks are not supported.
+            out, pos, k = [], 0, 0
+            mb = mask_strings(b)
+            for mo in re.finditer(r"\btry\s*\{", mb):
+                if mo.start() < pos:
+                    raise ExtractError("nested try blocks are outside the exception-flow model")
+                bo = mo.end() - 1
+                bc = match_fwd(mb, bo, "{", "}")
+                cm = re.match(r"\s*catch\s*\([^)]*\)\s*\{", mb[bc + 1:])
+                if not cm:
+                    raise ExtractError("try block without directly following catch")
+                inner = b[bo + 1:bc]
+                names = "|".join(re.escape(n) for n in exc["may_throw"])
+                inner2, n = re.subn(r"([^;{}]*\b(?:%s)\s*\([^;]*;)" % names, lambda x: x.group(1) + " if (rxv_exc) goto rxv_catch_%d;" % k, inner)
+                self.fire("exception flow: exits from try block after may-throw calls", n)
+                out.append(b[pos:mo.start()] + "{" + inner2 + "}\n rxv_catch_%d: ; if (rxv_exc ? (rxv_exc = 0, 1) : 0) {" % k)
+                pos = bc + 1 + cm.end()
+                k += 1
+            b = "".join(out) + b[pos:]
+            self.fire("try/catch -> exception flow model", k)
         b = re.sub(r"\btry\s*\{", lambda mo: (self.fire("try block -> plain block"), "{")[1], b)
         b = re.sub(r"\bcatch\s*\([^)]*\)\s*\{", lambda mo: (self.fire("catch -> if (RXV_CAUGHT)"), "if (RXV_CAUGHT) {")[1], b)
         # auto
